@@ -88,7 +88,7 @@ func bigScript(w, h int, withString bool) []Op {
 func bigCases(tier string, yield func(Case) bool) {
 	maxK := 17
 	if tier == "thorough" {
-		maxK = 21
+		maxK = 20
 	}
 	counts := bigCounts(maxK, tier == "thorough")
 	for i, n := range counts {
@@ -136,12 +136,12 @@ func bigCases(tier string, yield func(Case) bool) {
 
 var specBig = pbt.Register(&pbt.Spec[Case]{
 	Property: "C08", Name: "C08.big",
-	Rule: "enumerated: for every n in {2^k-1, 2^k, 2^k+1, 1.5*2^k-1, 1.5*2^k, 1.5*2^k+1 : k = 5..17 (thorough 21)} + {100, 1000, 10^4, 10^5, 65x64, 100x100, 3*4096+1, 5*4096-1, " +
+	Rule: "enumerated: for every n in {2^k-1, 2^k, 2^k+1, 1.5*2^k-1, 1.5*2^k, 1.5*2^k+1 : k = 5..17 (thorough 20)} + {100, 1000, 10^4, 10^5, 65x64, 100x100, 3*4096+1, 5*4096-1, " +
 		"7*4096+2048, 8192+4095, 65536+4097, 2*65536-3, ...} the shapes n x 1, 1 x n, ceil(n/3) x 3, 3 x ceil(n/3), s x (s+1), (s+1) x s (s = floor sqrt n) and an exact factorisation " +
 		"near the square root: New2DFilled alone (ordinary value; a special value incl. the zero value), New2DFromJagged with h+1 rows of w+1 / shorter values, and on one constructor " +
 		"in turn the script Fill whole grid / lower right part with swapped corners / all but the border columns / zero value over everything / all but the border rows / one column " +
 		"(or the last row), Clone with later writes on one side, Row and RowSpan windows written through and kept, Set at the last cell, calls just outside; so filled runs and copied " +
-		"rows of every length around every power of two up to 2^17 (2^21) occur as a whole store, as one row of a rectangle and as a column; the same on the powers 6, 9, 12, 13 (16 for u8 and unit) " +
+		"rows of every length around every power of two up to 2^17 (2^20) occur as a whole store, as one row of a rectangle and as a column; the same on the powers 6, 9, 12, 13 (16 for u8 and unit) " +
 		"for the element types u8 (1 byte), f64x2 (16), slice (24, pointers), padded (96), any, unit (zero-size); " + rule,
 	Enum: func(shard, shards int, tier string, yield func(Case) bool) { bigCases(tier, yield) },
 	Run:  Run,
